@@ -3,7 +3,7 @@
 import json, subprocess, sys, os
 
 REPO_HOOK_COMMITS = ["51ce9be"]
-# fix: commits in /repo (recorded in known_findings.jsonl): 50eaa9d 8c5e8ca 1ad039d a2fd658 3207f58 09c2b15 3b0dfee 8c772ad 5c48cf6 ad72c2e 591d6e3 297ac37 5c50f69 de60172 f501192
+# fix: commits in /repo (recorded in known_findings.jsonl): 50eaa9d 8c5e8ca 1ad039d a2fd658 3207f58 09c2b15 3b0dfee 8c772ad 5c48cf6 ad72c2e 591d6e3 297ac37 5c50f69 de60172 f501192 0d29461
 
 ENV = "export GOFLAGS=-mod=mod GOPROXY=off GOSUMDB=off GOTOOLCHAIN=local; "
 
@@ -49,7 +49,7 @@ CHECKS = {
          "No race report over the observed executions; the detector generalises each execution by happens-before.",
          "Harness is written to add no happens-before edges of its own in quiet mode.", "3/C12"),
  "C13": ("tool", T+"the cff binary built from the working tree run as a child process per package over Engine G programs, static multi-directive files and hazard templates in base/source-map x auto-instrument; oracle: no Go panic, positioned diagnostic on failure, outputs parse, package type-checks without the tag, AST scan for residual directives",
-         "Held on all explored inputs except the recorded known findings F4, F5, F10, F11 (identifier/package shadowing and nested directives); F2, F3, F6, F7, F14, F15, F16, F20 were found and fixed.",
+         "Held on all explored inputs except the recorded known findings F4, F5, F10, F11 (identifier/package shadowing and nested directives); F2, F3, F6, F7, F14, F15, F16, F20, F21 were found and fixed.",
          "Known findings are keyed by (spelling feature, compiler message); a different failure is still reported.", "3/C13"),
  "C14": ("tool", T+"random well-formed flows and every applicable single-defect mutation (16 kinds, incl. dependency rings that lead to no Results value and no Invoke task), each its own package; Slice/Map element/key/value type pairs over an 11-type lattice with the expected verdict computed by go/types.AssignableTo; observed: exit status, diagnostic naming the file, presence of *_gen.go",
          "Every explored ill-formed directive rejected, every well-formed one accepted - also in in-package test files and in files with two directives. Found F8 and F13 (fixed).",
